@@ -3,7 +3,9 @@
      bit 1: the SPEC of Model.v Part 1 disagrees with the running torch           (the spec is wrong)
      bit 2: the MODEL (guard table verdict + guards, or the pinned transcription) disagrees with the implementation
    The model is `None` (opaque) for cells whose code is neither covered by an exact guard nor transcribed; those are
-   checked by the direct property predicate of the harness only. *)
+   checked by the direct property predicate of the harness only.
+   OPERATOR second operands (QPair): the dispatch of `+`, `-`, `*`, `@` on the ordered pair (class of the left operand,
+   runtime class of the right operand) through the regenerated MRO table to the transcriptions of Model.v Part 5. *)
 From Coq Require Import String.
 From Coq Require Import List ZArith Bool Arith.
 Import ListNotations.
@@ -13,6 +15,8 @@ Open Scope nat_scope.
 Inductive verdict := VRaise | VOk (s : shape) | VOkAny.
 Inductive citem := CInt (i : Z) | CSlice (len : nat) | CTensor (sh : shape) (vals : list Z).
 
+Inductive pairop := PAdd | PSub | PMul | PMatmul.
+
 Inductive query :=
 | QEntry (e : entry) (b : shape)                       (* tensor operand of shape b *)
 | QAddDiag (d : shape)
@@ -21,7 +25,8 @@ Inductive query :=
 | QGetitem (idx : list citem)                           (* one item per dimension (or one too many) *)
 | QSquare (e : entry)                                   (* square-only operation on a rectangular operator *)
 | QCtorDense (t : shape)                                (* DenseLinearOperator(tensor of shape t) *)
-| QCtorMul (r : shape).                                 (* MulLinearOperator(this operator, operator of shape r) *)
+| QCtorMul (r : shape)                                  (* MulLinearOperator(this operator, operator of shape r) *)
+| QPair (o : pairop) (rc : string) (b : shape).         (* operator operand of runtime class rc and shape b *)
 
 Record case := C { k_cls : string; k_a : shape; k_q : query; k_impl : verdict; k_torch : verdict }.
 
@@ -72,6 +77,7 @@ Definition spec_accepts (a : shape) (q : query) : bool :=
   | QSquare _ => false
   | QCtorDense t => 2 <=? length t          (* by the class contract: a matrix or a batch of matrices *)
   | QCtorMul r => is_some (torch_elementwise_shape a r)
+  | QPair o _ b => match o with PMatmul => is_some (torch_matmul_shape a b) | _ => is_some (torch_elementwise_shape a b) end
   end.
 Definition spec_result (a : shape) (q : query) : option shape :=
   match q with
@@ -81,6 +87,7 @@ Definition spec_result (a : shape) (q : query) : option shape :=
                   end
   | QExpand sizes => torch_expand a sizes
   | QCat pos others dim => torch_cat (insert_at pos a others) dim
+  | QPair o _ b => match o with PMatmul => torch_matmul_shape a b | _ => torch_elementwise_shape a b end
   | _ => None
   end.
 
@@ -104,6 +111,60 @@ Definition pinned_matmul (d : string) (a b : shape) : option (res shape) :=
   else if String.eqb d "IdentityLinearOperator" then Some (pinned_identity_matmul a b)
   else if String.eqb d "ZeroLinearOperator" then Some (pinned_zero_matmul a b)
   else None.
+
+(* ---- operator operands: which code decides for an ordered pair of classes *)
+Definition isinst (c k : string) : bool := isinst_in mro_table c k.
+Definition is_any (d : string) (l : list string) : bool := existsb (String.eqb d) l.
+
+Open Scope string_scope.
+(* A + R.  d = class whose __add__ runs for the left operand (regenerated table).
+     ZeroLinearOperator.__add__                        -> the operand                                   (pinned)
+     LinearOperator / SumLinearOperator.__add__, R Zero -> self                                          (pinned fast path)
+     ConstantDiag.__add__, R a ConstantDiag            -> lib_constdiag_add
+     ConstantDiag / Diag.__add__, R a Diag             -> lib_diag_add      (ConstantDiag falls through to super().__add__)
+     Dense.__add__, R a Dense                          -> lib_dense_add
+   everything else ends in a lazily checked constructor (Sum / AddedDiag ...): opaque here, direct predicate only *)
+Definition model_pair_add (c : string) (a : shape) (rc : string) (b : shape) : option verdict :=
+  let d := def_of c E_add in
+  if String.eqb d "ZeroLinearOperator" then Some (of_res (lib_zero_add a b))
+  else if isinst rc "ZeroLinearOperator" then
+    if is_any d ["LinearOperator"; "SumLinearOperator"] then Some (of_res (pinned_add_zero_operand a b)) else None
+  else if String.eqb d "ConstantDiagLinearOperator" && isinst rc "ConstantDiagLinearOperator" then
+    Some (of_res (lib_constdiag_add a b))
+  else if is_any d ["ConstantDiagLinearOperator"; "DiagLinearOperator"] && isinst rc "DiagLinearOperator" then
+    Some (of_res (lib_diag_add a b))
+  else if String.eqb d "DenseLinearOperator" && isinst rc "DenseLinearOperator" then Some (of_res (lib_dense_add a b))
+  else None.
+
+(* A - R = A + R.mul(-1)  (base class only; checked by the translator).  Negating a Diag / ConstantDiag / Identity operand
+   keeps a diagonal operand of the same class family and shape (their _mul_constant); other operand classes change
+   class under negation (ConstantMul ...) or raise (Zero.mul(-1)): opaque *)
+Definition model_pair_sub (c : string) (a : shape) (rc : string) (b : shape) : option verdict :=
+  if String.eqb (def_of c E_sub) "LinearOperator" &&
+     is_any rc ["DiagLinearOperator"; "ConstantDiagLinearOperator"; "IdentityLinearOperator"]
+  then model_pair_add c a (if String.eqb rc "IdentityLinearOperator" then "ConstantDiagLinearOperator" else rc) b
+  else None.
+
+(* A * R.  base mul: Zero operand returned BEFORE the check (pinned fast path); otherwise torch.broadcast_shapes(self.shape,
+   other.shape) guards everything behind it; ConstantDiag * ConstantDiag then runs lib_constdiag_mul_matrix
+   (Identity has its own _mul_matrix) *)
+Definition model_pair_mul (c : string) (a : shape) (rc : string) (b : shape) : option verdict :=
+  let d := def_of c E_mul in
+  if String.eqb d "ZeroLinearOperator" then Some (of_res (lib_zero_mul a b))
+  else if String.eqb d "LinearOperator" then
+    if isinst rc "ZeroLinearOperator" then Some (of_res (pinned_mul_zero_operand a b))
+    else match torch_broadcast a b with
+         | None => Some VRaise
+         | Some _ =>
+             if String.eqb c "ConstantDiagLinearOperator" && isinst rc "ConstantDiagLinearOperator"
+             then Some (of_res (lib_constdiag_mul_matrix a b)) else None
+         end
+  else None.
+Close Scope string_scope.
+
+(* A @ R: whatever passes the exact guard for EVERY operand kind (the unrestricted table) *)
+Definition model_pair_matmul (c : string) (a : shape) (b : shape) : option verdict :=
+  if row_exact FUEL table c E_matmul then Some (of_spec (torch_matmul_shape a b)) else None.
 
 Definition exact_entry (e : entry) : bool :=
   match e with E_matmul | E_rmatmul | E_inv_quad | E_mul | E_add | E_sub => true | _ => false end.
@@ -153,6 +214,13 @@ Definition model_verdict (c : string) (a : shape) (q : query) : option verdict :
       if check_size_of c && negb (is_ok (lib_compute_getitem_size true a (map to_item idx))) then Some VRaise else None
   | QCtorDense t => Some (if is_ok (lib_dense_check_args t) then VOkAny else VRaise)
   | QCtorMul r => Some (if is_ok (lib_mul_check_args a r) then VOkAny else VRaise)
+  | QPair o rc b =>
+      match o with
+      | PAdd => model_pair_add c a rc b
+      | PSub => model_pair_sub c a rc b
+      | PMul => model_pair_mul c a rc b
+      | PMatmul => model_pair_matmul c a b
+      end
   end.
 
 Definition is_raise (v : verdict) : bool := match v with VRaise => true | _ => false end.
